@@ -124,6 +124,16 @@ func (w *world) agreement() bool {
 
 // usage: bftsim replay <scripts.ndjson> <out.ndjson>    (one Script JSON per input line)
 func main() {
+	if len(os.Args) >= 5 && os.Args[1] == "election" {
+		var seed, cases int64
+		fmt.Sscan(os.Args[2], &seed)
+		fmt.Sscan(os.Args[3], &cases)
+		if err := electionMode(seed, int(cases), os.Args[4]); err != nil {
+			fmt.Fprintln(os.Stderr, err)
+			os.Exit(2)
+		}
+		return
+	}
 	if len(os.Args) >= 5 && os.Args[1] == "live" {
 		var seed, runs int64
 		fmt.Sscan(os.Args[2], &seed)
